@@ -406,7 +406,7 @@ def parse_digest(ctx, se, t, depth=0):
                 return ("raw", "digest of unexpected type")
             return ("H", ins)
         if is_call(h) and h[1] in UNWRAP and is_call(h[2][0]) and h[2][0][1] in MAC_NEW:
-            if not digest_type_ok(ctx, h[2][0], "Hmac<") or not digest_type_ok(ctx, h[2][0], "Sha1"):
+            if not digest_type_ok(ctx, h[2][0], "hmac::HmacCore<") or not digest_type_ok(ctx, h[2][0], "Sha1"):
                 return ("raw", "mac of unexpected type")
             return ("HMAC", bexpr(ctx, se, h[2][0][2][0], depth + 1), ins)
         return ("raw", "digest chain does not start at new(): %s" % show(h, maxdepth=3))
@@ -549,3 +549,26 @@ def check_gate(rep, body, fn, eq_edge, ne_edge, accept_blocks, reject_blocks, wh
 
 def calls_in(body, pred):
     return [bi for bi, t in body.calls() if pred(t)]
+
+
+LEN_CALLS = ("core::slice::<impl [T]>::len", "core::str::<impl str>::len", "std::vec::Vec::<T, A>::len", "core::array::<impl [T; N]>::len")
+
+
+def numnorm(t):
+    """stripped term with constant casts folded and length calls as ("len", x)"""
+    t = strip(t)
+    k = t[0]
+    if k == "cast" and t[1] == "IntToInt":
+        inner = numnorm(t[2])
+        if inner[0] == "int":
+            return ("int", inner[1], t[3])
+        return ("cast", t[1], inner, t[3])
+    if k == "call" and t[1] in LEN_CALLS:
+        return ("len", numnorm(t[2][0]))
+    if k == "binop":
+        return ("binop", t[1], numnorm(t[2]), numnorm(t[3]))
+    if k == "unop":
+        return ("unop", t[1], numnorm(t[2]))
+    if k == "field":
+        return ("field", numnorm(t[1])) + t[2:]
+    return t
